@@ -192,6 +192,51 @@ func checkC17(c *Ctx) {
 		return ""
 	}
 
+	// ---- R17k emitted codecs do not write to the message they encode
+	r.Rule("R17k", "an emitted MarshalJSON never stores into its receiver: encoding a message that several calls share (a request template, a cached response) must not modify it", 1)
+	{
+		nEnc := 0
+		reported := map[string]bool{}
+		for _, uf := range files {
+			for _, d := range uf.f.Decls {
+				fd, ok := d.(*ast.FuncDecl)
+				if !ok || fd.Body == nil || fd.Recv == nil || fd.Name.Name != "MarshalJSON" || len(fd.Recv.List) == 0 || len(fd.Recv.List[0].Names) == 0 {
+					continue
+				}
+				nEnc++
+				recv := fd.Recv.List[0].Names[0].Name
+				ast.Inspect(fd.Body, func(nd ast.Node) bool {
+					var lhs []ast.Expr
+					switch x := nd.(type) {
+					case *ast.AssignStmt:
+						if x.Tok == token.DEFINE {
+							return true
+						}
+						lhs = x.Lhs
+					case *ast.IncDecStmt:
+						lhs = []ast.Expr{x.X}
+					default:
+						return true
+					}
+					for _, l := range lhs {
+						if _, isIdent := ast.Unparen(l).(*ast.Ident); isIdent {
+							continue
+						}
+						if root := rootIdentOf(l); root != nil && root.Name == recv {
+							k := fmt.Sprintf("*%s MarshalJSON stores into its receiver", uf.root.Suffix)
+							if !reported[k] {
+								reported[k] = true
+								r.Bad("R17k", k, genPos(uf, nd.Pos()), "the emitted MarshalJSON of "+holeFree(types.ExprString(fd.Recv.List[0].Type))+" executes `"+holeFree(types.ExprString(l))+" = …` on the message it encodes: two calls that encode the same message at the same time race on that field — one call's JSON loses it, and the shared message can lose it for good", nil)
+							}
+						}
+					}
+					return true
+				})
+			}
+		}
+		r.OKd("R17k", "emitted MarshalJSON methods inspected for stores into the receiver", "", map[string]any{"encoders": nEnc, "with_stores": len(reported)})
+	}
+
 	// ---- R17i what a request is answered with does not depend on Go's randomised map iteration order
 	r.Rule("R17i", "every range over a Go map in the emitted server runtime has an order-insensitive body: the answer to a request (violation lists, headers) is a function of the request, not of the map's per-iteration random order", 1)
 	if ep, err := c.ServerRuntime(); err != nil {
